@@ -81,11 +81,29 @@ def worker(args):
                 if new is None: break
                 outs.append(new)
                 # idempotence: the formatted text formats to itself, answered as null
-                uri = sess.open(new, "c11i_"); r2 = fmt.format_request(sess, uri, opts); part.ev(); sess.close(uri)
+                uri = sess.open(new, "c11i_"); r2 = fmt.format_request(sess, uri, opts); part.ev()
                 if r2 is not None:
+                    sess.close(uri)
                     n2, _ = fmt.apply_format(new, r2)
                     part.fail("formatting an already formatted document returns an edit (%s)" % ("changing it again" if n2 != new else "that changes nothing"), dict(sc, formatted=new)); break
                 part.cnt("idempotence_checks")
+                # the same document, still open, asked again with ANOTHER indentation unit right after the null answer: the lines stay
+                # the same, only their indentation is exchanged (and an answer of null is right only if no line is indented)
+                opts2 = fmt.options(rng)
+                while fmt.unit(opts2) == fmt.unit(opts): opts2 = fmt.options(rng)
+                r3 = fmt.format_request(sess, uri, opts2); part.ev(); sess.close(uri)
+                sc3 = {"kind": "format-twice", "text": new, "options": opts, "options2": opts2}
+                n3, problem = fmt.apply_format(new, r3)
+                if problem: part.fail("second request with other options: %s" % problem, sc3); break
+                l1 = [l.lstrip(" \t") for l in new.split("\n")]; l3 = [l.lstrip(" \t") for l in n3.split("\n")]
+                if l1 != l3:
+                    i = next((i for i, (x, y) in enumerate(zip(l1, l3)) if x != y), min(len(l1), len(l3)))
+                    part.fail("the line structure depends on the indentation options: with %r line %d is %r, with %r it is %r" % (opts, i, l1[i:i + 1], opts2, l3[i:i + 1]), sc3); break
+                nfail = part["counters"].get("failures_total", 0)
+                check_indentation(part, Ps[li], n3, opts2, sc3)
+                if part["counters"].get("failures_total", 0) != nfail: break
+                if (r3 is None) != (n3 == new): part.fail("second request with other options: an edit that changes nothing", sc3); break
+                part.cnt("option_changes_on_the_open_document"); part.see(("unit-change", "tabs" if not opts["insertSpaces"] else opts["tabSize"], "tabs" if not opts2["insertSpaces"] else opts2["tabSize"]))
                 if li == 0:
                     # near-canonical layouts: the canonical text with other line endings / final newline / stray white space must be
                     # brought back to the canonical text (an answer of null is right only if the text *is* canonical)
@@ -111,6 +129,7 @@ def worker(args):
                     if it == 0: part.sample({"part": "three layouts -> one canonical text", "options": opts, "canonical": outs[0][:200]}, 1)
         except (ServerDied, Timeout, FrameError) as e:
             feat.died(part, e, "formatting request", {"kind": "format", "text": texts[0], "options": opts}, sess)
+    feat.report(part)
     sess.kill()
     return part
 
@@ -129,6 +148,16 @@ def run(ctx):
 def replay(ctx, sc):
     part = Part(); sess = feat.Session()
     try:
+        if sc.get("kind") == "format-twice":
+            uri = sess.open(sc["text"], "c11r_")
+            r2 = fmt.format_request(sess, uri, sc["options"]); r3 = fmt.format_request(sess, uri, sc["options2"]); part.ev(2); sess.close(uri)
+            n3, problem = fmt.apply_format(sc["text"], r3)
+            if r2 is not None: part.fail("formatting the formatted text returns an edit", sc)
+            elif problem: part.fail(problem, sc)
+            elif [l.lstrip(" \t") for l in sc["text"].split("\n")] != [l.lstrip(" \t") for l in n3.split("\n")]: part.fail("the line structure depends on the indentation options", sc)
+            elif r3 is None and fmt.unit(sc["options"]) != fmt.unit(sc["options2"]) and any(l[:1] in " \t" for l in sc["text"].split("\n")):
+                part.fail("null although the document is indented with another unit", sc)
+            sess.kill(); ctx.merge(part); ctx.see(1); ctx.see(2); return
         new, res = fmt_text(part, sess, sc["text"], sc["options"], sc, "replay")
         if new is not None:
             uri = sess.open(new, "c11r_"); r2 = fmt.format_request(sess, uri, sc["options"]); part.ev(); sess.close(uri)
